@@ -376,6 +376,13 @@ package plenccodec
 //@   loop 2 decreases loadi64(ptr + 8) - i
 //@   ensures[C04,C05] err == nil ==> 0 <= n && n <= len(data)
 //@   ensures[C04,C10] err == nil ==> 0 <= loadi64(ptr + 8) && loadi64(ptr + 8) <= loadi64(ptr + 16)
+//@   # one element per varint in the data: the first pass counts them (one more per varint, each stepped over exactly),
+//@   # the length is set to that count before the first element is read, element i is decoded into slot i from where
+//@   # the previous one ended, and success is reported only after the last
+//@   loop 1 step[C10,C01] called_ReadVarUint && count == head_count + 1 && offset == head_offset + call_ReadVarUint_r1
+//@   loop 2 entry[C10,C01] loadi64(ptr + 8) == count && count <= loadi64(ptr + 16) && offset == 0
+//@   loop 2 step[C10,C01] called_Codec_Read && call_Codec_Read_arg0 == c.Underlying && call_Codec_Read_arg2 == loadptr(ptr) + head_i * int(c.EltSize) && i == head_i + 1 && offset == head_offset + call_Codec_Read_r0
+//@   ensures[C10,C01] err == nil ==> loopdone_2
 
 //@ func plenccodec.WTFixedSliceWrapper.Read
 //@   safety C04 C11
@@ -386,6 +393,10 @@ package plenccodec
 //@   loop 1 invariant[C04] 0 <= offset && offset <= len(data) && 0 <= i
 //@   loop 1 decreases loadi64(ptr + 8) - i
 //@   ensures[C04,C05] err == nil ==> 0 <= n && n <= len(data)
+//@   # as many elements as fit the data, element i decoded into slot i from where the previous one ended
+//@   loop 1 entry[C10,C01] loadi64(ptr + 8) == count && count <= loadi64(ptr + 16) && offset == 0
+//@   loop 1 step[C10,C01] called_Codec_Read && call_Codec_Read_arg0 == c.Underlying && call_Codec_Read_arg2 == loadptr(ptr) + head_i * int(c.EltSize) && i == head_i + 1 && offset == head_offset + call_Codec_Read_r0
+//@   ensures[C10,C01] err == nil ==> loopdone_1
 
 //@ func plenccodec.WTLengthSliceWrapper.Read
 //@   safety C04 C11
@@ -468,6 +479,11 @@ package plenccodec
 //@   loop 1 invariant[C04] 0 < offset && offset <= len(data)
 //@   loop 1 decreases len(data) - offset
 //@   ensures[C04,C05] err == nil ==> 0 <= n && n <= len(data)
+//@   # one entry per count: each iteration hands exactly the entry's bytes to readMapEntry, for the target's map, and
+//@   # success is reported only when the count is used up (or there was nothing to read)
+//@   loop 1 step[C10,C01] called_MapCodec_readMapEntry && count == head_count - 1 && len(call_MapCodec_readMapEntry_arg3) == int(call_ReadVarUint_r0) && call_MapCodec_readMapEntry_arg1 == mp
+//@   loop 1 entry[C10,C01] mp == loadptr(ptr) && mp != nil       # entries go into the map the target holds (made if there was none)
+//@   ensures[C10,C01] err == nil ==> loopdone_1 || len(data) == 0
 
 //@ func plenccodec.*MapCodec.readMapEntry
 //@   safety C04 C11 C10
